@@ -68,33 +68,47 @@ fn scratch_dir() -> std::path::PathBuf {
     d
 }
 
-/// Decode in a thread with a fixed 8 MiB stack so that the nesting depth at which the
-/// recursive decoder overflows its stack does not depend on the caller's `ulimit -s`.
-fn on_big_stack<T: Send + 'static>(f: impl FnOnce() -> T + Send + 'static) -> std::thread::Result<T> {
-    std::thread::Builder::new().stack_size(8 << 20).spawn(f).unwrap().join()
+fn guarded<T>(f: impl FnOnce() -> T + std::panic::UnwindSafe) -> std::thread::Result<T> {
+    std::panic::catch_unwind(f)
 }
 
-fn worker_job(line: &str) -> String {
+fn worker_job(scratch: &mut std::fs::File, line: &str) -> String {
+    use std::io::{Seek, SeekFrom};
     let (kind, hexs) = line.split_once(' ').unwrap_or((line, ""));
     let bytes = unhex(hexs);
     match kind {
-        "buf" => outcome(on_big_stack(move || ModelProto::parse_buf(&bytes))),
+        "buf" => outcome(guarded(|| ModelProto::parse_buf(&bytes))),
         "file" => {
-            let p = scratch_dir().join(format!("c38-{}.onnx", std::process::id()));
-            std::fs::write(&p, &bytes).unwrap();
-            let r = on_big_stack({
-                let p = p.clone();
-                move || ModelProto::parse_file(std::fs::File::open(&p).unwrap())
-            });
-            let _ = std::fs::remove_file(&p);
-            outcome(r)
+            // one scratch file, rewritten in place; the decoder gets a duplicate handle
+            // positioned at the start
+            scratch.set_len(0).unwrap();
+            scratch.seek(SeekFrom::Start(0)).unwrap();
+            scratch.write_all(&bytes).unwrap();
+            scratch.seek(SeekFrom::Start(0)).unwrap();
+            let dup = scratch.try_clone().unwrap();
+            outcome(guarded(move || ModelProto::parse_file(dup)))
         }
-        "sniff" => match on_big_stack(move || is_onnx_model(ValueReader::from_buf(&bytes[..]))) {
+        "sniff" => match guarded(|| is_onnx_model(ValueReader::from_buf(&bytes[..]))) {
             Ok(b) => format!("(SBool {})", b),
             Err(_) => "SPanic".to_string(),
         },
         _ => "bad-job".to_string(),
     }
+}
+
+/// The whole job loop runs on one thread with a fixed 8 MiB stack, so that the nesting depth at
+/// which a recursive decoder overflows its stack does not depend on the caller's `ulimit -s`.
+fn worker() {
+    let path = scratch_dir().join(format!("c38-{}.onnx", std::process::id()));
+    let mut file = std::fs::OpenOptions::new().read(true).write(true).create(true).truncate(true).open(&path).unwrap();
+    // unlinked at once: nothing is left behind when the worker is killed by the watchdog
+    let _ = std::fs::remove_file(&path);
+    std::thread::Builder::new()
+        .stack_size(8 << 20)
+        .spawn(move || worker_loop(|line| worker_job(&mut file, line)))
+        .unwrap()
+        .join()
+        .unwrap();
 }
 
 struct Obs {
@@ -164,7 +178,7 @@ fn main() {
     quiet_panics();
     let args: Vec<String> = std::env::args().collect();
     match args.get(1).map(|s| s.as_str()) {
-        Some("worker") => worker_loop(worker_job),
+        Some("worker") => worker(),
         Some("exec") => exec(),
         Some("probe") => {
             let mut iso = Isolated::new(&["worker"], WATCHDOG_MS);
